@@ -216,8 +216,10 @@ def interpret(cmds, start=0j):
                     note('zero_radius_arc')
                 else:
                     if p == cur:
+                        # F.6.2: identical end points: the arc is omitted entirely
                         note('arc_with_coincident_endpoints')
-                    segs.append(('A', cur, (rx, ry), rot, large, sweep, p))
+                    else:
+                        segs.append(('A', cur, (rx, ry), rot, large, sweep, p))
                 cur = p
                 prev_ctrl = None
             prev = eff
